@@ -341,3 +341,79 @@ Definition truncate_to_height (blocks : list Z) (mn : mn3) (req : Z) (w : w3) : 
       | Panic => Panic
       end
   end.
+
+(** * truncate_to_chain_state (zcash_client_sqlite/src/wallet.rs) *)
+(** [min_shared_checkpoint_height]: the lowest height checkpointed in every pool that has any
+    checkpoint *)
+Definition has_or_empty (m : ckmap) (h : Z) : bool :=
+  match m with [] => true | _ => has_at m h end.
+Definition zmin_list (l : list Z) : option Z :=
+  fold_left (fun a x => match a with None => Some x | Some y => Some (Z.min x y) end) l None.
+Definition min_shared (w : w3) : option Z :=
+  let '(ws, wo, wi) := w in
+  zmin_list (filter (fun h => has_or_empty (ck ws) h && has_or_empty (ck wo) h && has_or_empty (ck wi) h)
+               (ck_dom (ck ws) ++ ck_dom (ck wo) ++ ck_dom (ck wi))).
+
+(** what [truncate_to_height_internal h] does to the two inputs of the classification: blocks above
+    [h] are deleted when blocks are removed at all; transactions above [h] are un-mined always *)
+Definition blocks_after (blocks : list Z) (h : Z) : list Z :=
+  match zmax_list blocks with
+  | Some last => if h <? last then filter (fun x => x <=? h) blocks else blocks
+  | None => blocks
+  end.
+Definition mn_after (mn : mn3) (h : Z) : mn3 :=
+  let f o := match o with Some n => if n <=? h then Some n else None | None => None end in
+  let '(a, b, c) := mn in (f a, f b, f c).
+
+(** [insert_frontier(frontier, Checkpoint {id: target})] *)
+Definition ins_frontier (budget target size : Z) (s : pstate) : outcome pstate perr :=
+  match ck_add target (frontier_pos size) (ck s) with
+  | None => Err EConflict
+  | Some m => Ok (if size =? 0 then {| ck := m; rt := rt s |} else prune budget {| ck := m; rt := rt s |})
+  end.
+
+Definition truncate_to_chain_state (budget : Z) (blocks : list Z) (mn : mn3) (target : Z)
+  (sizes : Z * Z * Z) (w : w3) : outcome w3 perr :=
+  let trunc_trees := match zmax_list blocks with Some last => target <? last | None => false end in
+  if trunc_trees then
+    (* Some (Ok _) = return early; None = fall through with the given state *)
+    let stage1 : outcome (option w3 * (w3 * list Z * mn3)) perr :=
+      match select_height blocks mn target w with
+      | Some h =>
+          if h =? target then
+            match truncate_internal blocks mn h h w with
+            | Ok w' => Ok (Some w', (w, blocks, mn))
+            | Err e => Err e | Panic => Panic
+            end
+          else Ok (None, (w, blocks, mn))
+      | None =>
+          match min_shared w with
+          | Some m =>
+              match truncate_internal blocks mn m m w with
+              | Ok w1 => Ok (None, (w1, blocks_after blocks m, mn_after mn m))
+              | Err e => Err e | Panic => Panic
+              end
+          | None => Ok (None, (w, blocks, mn))
+          end
+      end in
+    match stage1 with
+    | Ok (Some w', _) => Ok w'
+    | Ok (None, (w1, blocks1, mn1)) =>
+        let '(ws, wo, wi) := w1 in
+        let '(zs, zo, zi) := sizes in
+        match ins_frontier budget target zs ws with
+        | Ok ws' =>
+            match ins_frontier budget target zo wo with
+            | Ok wo' =>
+                match ins_frontier budget target zi wi with
+                | Ok wi' => truncate_internal blocks1 mn1 target target (ws', wo', wi')
+                | Err e => Err e | Panic => Panic
+                end
+            | Err e => Err e | Panic => Panic
+            end
+        | Err e => Err e | Panic => Panic
+        end
+    | Err e => Err e
+    | Panic => Panic
+    end
+  else truncate_internal blocks mn target target w.
